@@ -202,6 +202,26 @@ def _canon_functions(merged, table):
         f = merged['functions'].pop(k)
         f['key'] = nk
         merged['functions'][nk] = f
+    # ... and the call sites name their callee by its (mangled) key: they follow the re-keyed definitions
+    fmmap = {}
+    for k, nk in newkeys.items():
+        fmmap[k] = nk
+        fmmap[k.split('@')[0]] = nk.split('@')[0]
+
+    def walk_fm(x):
+        if isinstance(x, dict):
+            if x.get('fm') in fmmap:
+                x['fm'] = fmmap[x['fm']]
+            for y in x.values():
+                if isinstance(y, (dict, list)):
+                    walk_fm(y)
+        elif isinstance(x, list):
+            for y in x:
+                if isinstance(y, (dict, list)):
+                    walk_fm(y)
+    if fmmap:
+        for f in merged['functions'].values():
+            walk_fm(f.get('blocks') or [])
     fbq = {}
     for k, f in merged['functions'].items():
         fbq.setdefault(f['q'], []).append(k)
